@@ -536,3 +536,68 @@ Lemma thrust_cat_examples :
   @thrust_cat RNum 3 (2/10, 6/10, 15/10, 2) = Climb /\
   @thrust_cat RNum (1/2) (1, 1, 1/10, 2) = Idle /\ @thrust_cat RNum (3/2) (1, 1, 1/10, 2) = Climb.
 Proof. unfold thrust_cat, low_limit, approach_limit, tget. rn. repeat split; rsolve; reflexivity. Qed.
+
+(* ------------------------------------------------------------------------------------------------ *)
+(* the same laws restricted to the property's domain (positive certification data, physical ambient    *)
+(* state): outside it the real-number statements hold only through Coq's totalised ln and division     *)
+(* ------------------------------------------------------------------------------------------------ *)
+(* Eq. 44-45 are defined iff the water-vapour partial pressure at 60 % relative humidity is below the
+   ambient pressure (both in psia): phi * Pv < P_psia, the denominator of the specific humidity *)
+Definition humidity_defined (Ta P : R) : Prop :=
+  0 < Ta /\ 0 < P /\
+  3 / 5 * (1813 / 125000 * @pow10 RNum (@sat_beta RNum Ta)) < P / @c_p0 RNum * (1837 / 125).
+
+Lemma humidity_defined_denominator Ta P : humidity_defined Ta P ->
+  0 < Ta + 1 / 100 /\ 0 < P / @c_p0 RNum * @q RNum 1837 125 - @q RNum 3 5 * (@q RNum 1813 125000 * @pow10 RNum (@sat_beta RNum Ta)).
+Proof. intros (HT & HP & H). asR (@pow10 RNum (@sat_beta RNum Ta)) pv. asR (P / @c_p0 RNum) d. rn. split; lra. Qed.
+
+(* for every temperature there are pressures satisfying the hypothesis (the harness checks that every generated
+   ambient state does) *)
+Lemma humidity_defined_satisfiable Ta : 0 < Ta -> exists P, humidity_defined Ta P.
+Proof. intros HT. pose proof (pow10_pos (@sat_beta RNum Ta)) as Hp. pose proof c_p0_pos as H0.
+  exists ((3 / 5 * (1813 / 125000 * @pow10 RNum (@sat_beta RNum Ta)) + 1) * (125 / 1837) * @c_p0 RNum).
+  unfold humidity_defined. asR (@pow10 RNum (@sat_beta RNum Ta)) pv. asR (@c_p0 RNum) p0.
+  split; [assumption | split].
+  - apply Rmult_lt_0_compat; [apply Rmult_lt_0_compat | ]; lra.
+  - replace ((3 / 5 * (1813 / 125000 * pv) + 1) * (125 / 1837) * p0 / p0 * (1837 / 125))
+      with (3 / 5 * (1813 / 125000 * pv) + 1) by (field; lra). lra. Qed.
+
+Lemma ffm2_linear_physical (k f1 f2 P Ta M z PSL TSL n : R) :
+  0 < P -> 0 < Ta -> 0 < PSL -> 0 < TSL -> 0 < n ->
+  @ffm2 RNum (k * f1) P Ta M z PSL TSL n = k * @ffm2 RNum f1 P Ta M z PSL TSL n /\
+  @ffm2 RNum (f1 + f2) P Ta M z PSL TSL n = @ffm2 RNum f1 P Ta M z PSL TSL n + @ffm2 RNum f2 P Ta M z PSL TSL n.
+Proof. intros. split; [apply ffm2_scales | apply ffm2_additive]. Qed.
+
+Lemma ffm2_nonneg_physical (ff P Ta M z PSL TSL n : R) :
+  0 <= ff -> 0 < P -> 0 < Ta -> 0 < PSL -> 0 < TSL -> 0 < n -> 0 <= @ffm2 RNum ff P Ta M z PSL TSL n.
+Proof. intros. apply ffm2_nonneg; assumption. Qed.
+
+Lemma ffm2_physical_satisfiable :
+  0 <= (1:R) /\ 0 < (22632:R) /\ 0 < (21665/100:R) /\ 0 < (101325:R) /\ 0 < (28815/100:R) /\ 0 < (2:R).
+Proof. repeat split; lra. Qed.
+
+Lemma bffm2_nox_scales_physical k ff (ei cal : tm) Ta P :
+  0 < k -> tpos ei -> tpos cal -> humidity_defined Ta P ->
+  @bffm2_nox RNum ff (tscale k ei) cal Ta P =
+  let '(nox, no, no2, hono, pno, pno2, phono) := @bffm2_nox RNum ff ei cal Ta P in
+  (k * nox, k * no, k * no2, k * hono, pno, pno2, phono).
+Proof. intros. apply bffm2_nox_scales; assumption. Qed.
+
+Lemma bffm2_nox_positive_physical ff (ei cal : tm) Ta P :
+  tpos ei -> tpos cal -> humidity_defined Ta P ->
+  let '(nox, no, no2, hono, pno, pno2, phono) := @bffm2_nox RNum ff ei cal Ta P in
+  0 < nox /\ 0 < no /\ 0 < no2 /\ 0 < hono /\ no + no2 + hono = nox /\ pno + pno2 + phono = 1.
+Proof. intros. apply bffm2_nox_positive. Qed.
+
+Lemma hcco_scales_physical k ff (ei cal : tm) Ta P :
+  0 < k -> tpos ei -> tpos cal -> 0 < Ta -> 0 < P ->
+  @hcco RNum ff (tscale k ei) cal Ta P = k * @hcco RNum ff ei cal Ta P.
+Proof. intros. apply hcco_scales; assumption. Qed.
+
+Lemma hcco_nonneg_physical ff (ei cal : tm) Ta P :
+  tpos ei -> tpos cal -> 0 < Ta -> 0 < P ->
+  0 <= @hcco RNum ff ei cal Ta P /\ (0 < ff -> 0 < @hcco RNum ff ei cal Ta P).
+Proof. intros. split; [apply hcco_nonneg | apply hcco_positive_flow_positive]. Qed.
+
+Lemma cert_data_satisfiable : 0 < (2:R) /\ tpos (30, 25, 20, 18) /\ tpos (2/10, 6/10, 15/10, 2) /\ 0 < (21665/100:R) /\ 0 < (22632:R).
+Proof. unfold tpos. repeat split; lra. Qed.
